@@ -64,6 +64,25 @@ class Model(object):
 #
 def gen(rng, tier):
 
+    if rng.random() < 0.15:
+        # focus `pilots`: the C13 world (tasks on several pilots which end at
+        # seeded points, mostly without a quiet period before the death) with
+        # a task callback; log calls are blocking points, threads stall
+        from . import c13
+        sc = c13.gen(rng, tier)
+        for op in sc['ops']:
+            if op[0] == 'die' and rng.random() < 0.7:
+                op[3] = True
+        sc['ops'] = [op for i, op in enumerate(sc['ops'])
+                     if not (op[0] == 'sync' and i + 1 < len(sc['ops']) and
+                             sc['ops'][i + 1][0] == 'die' and
+                             sc['ops'][i + 1][3])]
+        sc.update({'c06_focus': True, 'cb_race': None,
+                   'log_yield': rng.random() < 0.7,
+                   'stall': rng.choice([0.0, 0.05, 0.2, 0.2]),
+                   'kinds': ['pilot_death_race']})
+        return sc
+
     n1 = rng.randint(1, 6)
     n2 = rng.randint(0, 3)                     # submitted later by app thread
     n  = n1 + n2
@@ -156,6 +175,15 @@ def gen(rng, tier):
 def run(seed, scenario, trace=None, tier='quick'):
 
     sc = scenario
+
+    if sc.get('c06_focus'):
+        from . import c13
+        res = c13.run(seed, sc, trace=trace, tier=tier)
+        res['violations'] = [v for v in res['violations']
+                             if v['property'] == PROP]
+        if res['status'] == 'violation' and not res['violations']:
+            res['status'] = 'ok'
+        return res
 
     def build(sim, cfg):
 
@@ -378,6 +406,9 @@ def run(seed, scenario, trace=None, tier='quick'):
 
 
 def shrink(sc):
+    if sc.get('c06_focus'):
+        from . import c13
+        return c13.shrink(sc)
     '''candidate simplifications of a scenario (for ddmin style reduction)'''
     out = list()
     b = sc['batches']
